@@ -36,6 +36,17 @@ enum Op {
     RemoveFile(usize, &'static str),
     Flush(usize),
     GetName(usize),
+    GetInfo(usize, u32),
+    ArchiveName(usize),
+    EnumFiles(usize),
+    Extract(usize, &'static str),
+    VerifyFile(usize, &'static str),
+    Rename(usize, &'static str, &'static str),
+    Compact(usize),
+}
+extern "C" fn enum_cb(_name: *const libc::c_char, ud: *mut libc::c_void) -> bool {
+    unsafe { *(ud as *mut u32) += 1 };
+    true
 }
 #[derive(Clone, Debug, PartialEq, Eq, PartialOrd, Ord)]
 struct Res {
@@ -120,6 +131,33 @@ fn exec(ctx: &Ctx, op: &Op, out: usize) -> Res {
             Op::AddFile(a, n) => Res { ok: SFileAddFileEx(h(ctx, *a), cstr(ctx.src_file.to_str().unwrap()).as_ptr(), cstr(n).as_ptr(), 0, 0, 0), data: vec![] },
             Op::RemoveFile(a, n) => Res { ok: SFileRemoveFile(h(ctx, *a), cstr(n).as_ptr(), 0), data: vec![] },
             Op::Flush(a) => Res { ok: SFileFlushArchive(h(ctx, *a)), data: vec![] },
+            Op::GetInfo(x, class) => {
+                let mut buf = [0xA5u8; 24];
+                let mut need: u32 = 0;
+                let ok = SFileGetFileInfo(h(ctx, *x), *class, buf.as_mut_ptr() as *mut _, 8, &mut need);
+                assert!(buf[8..].iter().all(|b| *b == 0xA5), "SFileGetFileInfo wrote past the buffer size it was given");
+                Res { ok, data: if ok { buf[..8].to_vec() } else { vec![] } }
+            }
+            Op::ArchiveName(a) => {
+                let mut buf = vec![0i8; 600];
+                let ok = SFileGetArchiveName(h(ctx, *a), buf.as_mut_ptr() as *mut _, 512);
+                Res { ok, data: vec![] }
+            }
+            Op::EnumFiles(a) => {
+                let mut count: u32 = 0;
+                let ok = SFileEnumFiles(h(ctx, *a), cstr("*").as_ptr(), std::ptr::null(), Some(enum_cb), &mut count as *mut u32 as *mut _);
+                Res { ok, data: count.to_le_bytes().to_vec() }
+            }
+            Op::Extract(a, n) => {
+                let dest = ctx.src_file.with_extension(format!("out{}", out));
+                let ok = SFileExtractFile(h(ctx, *a), cstr(n).as_ptr(), cstr(dest.to_str().unwrap()).as_ptr(), 0);
+                let data = if ok { std::fs::read(&dest).unwrap_or_default() } else { vec![] };
+                let _ = std::fs::remove_file(&dest);
+                Res { ok, data }
+            }
+            Op::VerifyFile(a, n) => Res { ok: SFileVerifyFile(h(ctx, *a), cstr(n).as_ptr(), 0x06), data: vec![] },
+            Op::Rename(a, o, n) => Res { ok: SFileRenameFile(h(ctx, *a), cstr(o).as_ptr(), cstr(n).as_ptr()), data: vec![] },
+            Op::Compact(a) => Res { ok: SFileCompactArchive(h(ctx, *a), std::ptr::null(), false), data: vec![] },
             Op::GetName(f) => {
                 let mut buf = vec![0i8; 300];
                 let ok = SFileGetFileName(h(ctx, *f), buf.as_mut_ptr() as *mut _);
@@ -130,7 +168,7 @@ fn exec(ctx: &Ctx, op: &Op, out: usize) -> Res {
 }
 
 struct Scenario {
-    name: &'static str,
+    name: String,
     mutable: bool,
     setup: Vec<Op>,      // handle slots 0.. in order of producing ops
     conc: Vec<Vec<Op>>,  // one call sequence per thread; a handle produced by call j of thread k goes to slot 10 + 4k + j
@@ -140,29 +178,60 @@ const P: &str = "dir\\p.txt";
 const Q: &str = "dir\\q.bin";
 fn scenarios() -> Vec<Scenario> {
     use Op::*;
-    vec![
-        Scenario { name: "a: OpenFileEx(h) || CloseArchive(h)", mutable: false, setup: vec![OpenArchive(0)], conc: vec![vec![OpenFile(0, P)], vec![CloseArchive(0)]], probes: vec![Read(10, 4), Size(10), HasFile(0, P), CloseFile(10)] },
-        Scenario { name: "b: OpenArchive || OpenArchive", mutable: false, setup: vec![], conc: vec![vec![OpenArchive(0)], vec![OpenArchive(1)]], probes: vec![HasFile(10, P), HasFile(14, P), CloseArchive(10), HasFile(14, P), CloseArchive(14)] },
-        Scenario { name: "c: ReadFile(f) || ReadFile(f)", mutable: false, setup: vec![OpenArchive(0), OpenFile(0, P)], conc: vec![vec![Read(1, 3)], vec![Read(1, 3)]], probes: vec![Seek(1, 0, 1), Read(1, 2)] },
-        Scenario { name: "d: FindFirstFile(h) || CloseArchive(h)", mutable: false, setup: vec![OpenArchive(0)], conc: vec![vec![FindFirst(0)], vec![CloseArchive(0)]], probes: vec![FindNext(10), FindClose(10)] },
-        Scenario { name: "e: CloseFile(f) || ReadFile(f)", mutable: false, setup: vec![OpenArchive(0), OpenFile(0, P)], conc: vec![vec![CloseFile(1)], vec![Read(1, 4)]], probes: vec![Read(1, 1), HasFile(0, P)] },
-        Scenario { name: "f: VerifyArchive(h) || CloseArchive(h)", mutable: false, setup: vec![OpenArchive(0)], conc: vec![vec![Verify(0, 0x10)], vec![CloseArchive(0)]], probes: vec![HasFile(0, P)] },
-        Scenario { name: "g: AddFile(hm) || OpenFileEx(hm)", mutable: true, setup: vec![OpenArchive(2), ], conc: vec![vec![AddFile(0, "new\\added.txt")], vec![OpenFile(0, P)]], probes: vec![HasFile(0, "new\\added.txt"), Read(14, 4), CloseFile(14), CloseArchive(0)] },
-        Scenario { name: "h: OpenFileEx(h,p) || OpenFileEx(h,q)", mutable: false, setup: vec![OpenArchive(0)], conc: vec![vec![OpenFile(0, P)], vec![OpenFile(0, Q)]], probes: vec![Read(10, 4), Read(14, 4), GetName(10), GetName(14)] },
-        Scenario { name: "i: CloseArchive(h) || CloseArchive(h)", mutable: false, setup: vec![OpenArchive(0), OpenFile(0, P)], conc: vec![vec![CloseArchive(0)], vec![CloseArchive(0)]], probes: vec![Read(1, 2), HasFile(0, P)] },
-        Scenario { name: "j: CloseFile(f) || CloseFile(f)", mutable: false, setup: vec![OpenArchive(0), OpenFile(0, P)], conc: vec![vec![CloseFile(1)], vec![CloseFile(1)]], probes: vec![Read(1, 2)] },
-        Scenario { name: "k: OpenFileEx(h) || CloseArchive(h) || OpenArchive(other)", mutable: false, setup: vec![OpenArchive(0)], conc: vec![vec![OpenFile(0, Q)], vec![CloseArchive(0)], vec![OpenArchive(1)]], probes: vec![Read(10, 3), HasFile(18, P), CloseArchive(18)] },
-        Scenario { name: "l: SetFilePointer(f) || ReadFile(f)", mutable: false, setup: vec![OpenArchive(0), OpenFile(0, P)], conc: vec![vec![Seek(1, 2, 0)], vec![Read(1, 2)]], probes: vec![Seek(1, 0, 1)] },
-        Scenario { name: "m: GetFileSize(f) || CloseArchive(h)", mutable: false, setup: vec![OpenArchive(0), OpenFile(0, P)], conc: vec![vec![Size(1)], vec![CloseArchive(0)]], probes: vec![Size(1)] },
-        Scenario { name: "n: HasFile(h) || CloseArchive(h)", mutable: false, setup: vec![OpenArchive(0)], conc: vec![vec![HasFile(0, P)], vec![CloseArchive(0)]], probes: vec![HasFile(0, P)] },
-        Scenario { name: "o: RemoveFile(hm) || OpenFileEx(hm, same)", mutable: true, setup: vec![OpenArchive(2)], conc: vec![vec![RemoveFile(0, P)], vec![OpenFile(0, P)]], probes: vec![HasFile(0, P), Read(14, 4), CloseArchive(0)] },
-        Scenario { name: "p: FindNextFile(s) || FindClose(s)", mutable: false, setup: vec![OpenArchive(0), FindFirst(0)], conc: vec![vec![FindNext(1)], vec![FindClose(1)]], probes: vec![FindNext(1)] },
-        Scenario { name: "r: [OpenFileEx(h,p); ReadFile] || [OpenFileEx(h,q); CloseArchive(h)]", mutable: false, setup: vec![OpenArchive(0)], conc: vec![vec![OpenFile(0, P), Read(10, 3)], vec![OpenFile(0, Q), CloseArchive(0)]], probes: vec![Read(10, 2), Read(14, 2), HasFile(0, P)] },
-        Scenario { name: "s: [ReadFile(f); ReadFile(f)] || [SetFilePointer(f); ReadFile(f)]", mutable: false, setup: vec![OpenArchive(0), OpenFile(0, P)], conc: vec![vec![Read(1, 2), Read(1, 2)], vec![Seek(1, 1, 0), Read(1, 1)]], probes: vec![Seek(1, 0, 1)] },
-        Scenario { name: "t: [OpenArchive; CloseArchive] || [OpenArchive; OpenFileEx] || CloseArchive(h)", mutable: false, setup: vec![OpenArchive(0)], conc: vec![vec![OpenArchive(1), CloseArchive(10)], vec![OpenArchive(1), OpenFile(14, P)], vec![CloseArchive(0)]], probes: vec![Read(15, 3), HasFile(14, Q), HasFile(0, P), CloseArchive(14)] },
-        Scenario { name: "u: [FindFirstFile(h); FindNextFile] || [CloseArchive(h)] || [OpenFileEx(h)]", mutable: false, setup: vec![OpenArchive(0)], conc: vec![vec![FindFirst(0), FindNext(10)], vec![CloseArchive(0)], vec![OpenFile(0, P)]], probes: vec![FindNext(10), Read(18, 2), FindClose(10)] },
-        Scenario { name: "q: Flush(hm) || AddFile(hm)", mutable: true, setup: vec![OpenArchive(2)], conc: vec![vec![Flush(0)], vec![AddFile(0, "new\\x.txt")]], probes: vec![HasFile(0, "new\\x.txt"), CloseArchive(0)] },
-    ]
+    let mut all = vec![
+        Scenario { name: "a: OpenFileEx(h) || CloseArchive(h)".to_string(), mutable: false, setup: vec![OpenArchive(0)], conc: vec![vec![OpenFile(0, P)], vec![CloseArchive(0)]], probes: vec![Read(10, 4), Size(10), HasFile(0, P), CloseFile(10)] },
+        Scenario { name: "b: OpenArchive || OpenArchive".to_string(), mutable: false, setup: vec![], conc: vec![vec![OpenArchive(0)], vec![OpenArchive(1)]], probes: vec![HasFile(10, P), HasFile(14, P), CloseArchive(10), HasFile(14, P), CloseArchive(14)] },
+        Scenario { name: "c: ReadFile(f) || ReadFile(f)".to_string(), mutable: false, setup: vec![OpenArchive(0), OpenFile(0, P)], conc: vec![vec![Read(1, 3)], vec![Read(1, 3)]], probes: vec![Seek(1, 0, 1), Read(1, 2)] },
+        Scenario { name: "d: FindFirstFile(h) || CloseArchive(h)".to_string(), mutable: false, setup: vec![OpenArchive(0)], conc: vec![vec![FindFirst(0)], vec![CloseArchive(0)]], probes: vec![FindNext(10), FindClose(10)] },
+        Scenario { name: "e: CloseFile(f) || ReadFile(f)".to_string(), mutable: false, setup: vec![OpenArchive(0), OpenFile(0, P)], conc: vec![vec![CloseFile(1)], vec![Read(1, 4)]], probes: vec![Read(1, 1), HasFile(0, P)] },
+        Scenario { name: "f: VerifyArchive(h) || CloseArchive(h)".to_string(), mutable: false, setup: vec![OpenArchive(0)], conc: vec![vec![Verify(0, 0x10)], vec![CloseArchive(0)]], probes: vec![HasFile(0, P)] },
+        Scenario { name: "g: AddFile(hm) || OpenFileEx(hm)".to_string(), mutable: true, setup: vec![OpenArchive(2), ], conc: vec![vec![AddFile(0, "new\\added.txt")], vec![OpenFile(0, P)]], probes: vec![HasFile(0, "new\\added.txt"), Read(14, 4), CloseFile(14), CloseArchive(0)] },
+        Scenario { name: "h: OpenFileEx(h,p) || OpenFileEx(h,q)".to_string(), mutable: false, setup: vec![OpenArchive(0)], conc: vec![vec![OpenFile(0, P)], vec![OpenFile(0, Q)]], probes: vec![Read(10, 4), Read(14, 4), GetName(10), GetName(14)] },
+        Scenario { name: "i: CloseArchive(h) || CloseArchive(h)".to_string(), mutable: false, setup: vec![OpenArchive(0), OpenFile(0, P)], conc: vec![vec![CloseArchive(0)], vec![CloseArchive(0)]], probes: vec![Read(1, 2), HasFile(0, P)] },
+        Scenario { name: "j: CloseFile(f) || CloseFile(f)".to_string(), mutable: false, setup: vec![OpenArchive(0), OpenFile(0, P)], conc: vec![vec![CloseFile(1)], vec![CloseFile(1)]], probes: vec![Read(1, 2)] },
+        Scenario { name: "k: OpenFileEx(h) || CloseArchive(h) || OpenArchive(other)".to_string(), mutable: false, setup: vec![OpenArchive(0)], conc: vec![vec![OpenFile(0, Q)], vec![CloseArchive(0)], vec![OpenArchive(1)]], probes: vec![Read(10, 3), HasFile(18, P), CloseArchive(18)] },
+        Scenario { name: "l: SetFilePointer(f) || ReadFile(f)".to_string(), mutable: false, setup: vec![OpenArchive(0), OpenFile(0, P)], conc: vec![vec![Seek(1, 2, 0)], vec![Read(1, 2)]], probes: vec![Seek(1, 0, 1)] },
+        Scenario { name: "m: GetFileSize(f) || CloseArchive(h)".to_string(), mutable: false, setup: vec![OpenArchive(0), OpenFile(0, P)], conc: vec![vec![Size(1)], vec![CloseArchive(0)]], probes: vec![Size(1)] },
+        Scenario { name: "n: HasFile(h) || CloseArchive(h)".to_string(), mutable: false, setup: vec![OpenArchive(0)], conc: vec![vec![HasFile(0, P)], vec![CloseArchive(0)]], probes: vec![HasFile(0, P)] },
+        Scenario { name: "o: RemoveFile(hm) || OpenFileEx(hm, same)".to_string(), mutable: true, setup: vec![OpenArchive(2)], conc: vec![vec![RemoveFile(0, P)], vec![OpenFile(0, P)]], probes: vec![HasFile(0, P), Read(14, 4), CloseArchive(0)] },
+        Scenario { name: "p: FindNextFile(s) || FindClose(s)".to_string(), mutable: false, setup: vec![OpenArchive(0), FindFirst(0)], conc: vec![vec![FindNext(1)], vec![FindClose(1)]], probes: vec![FindNext(1)] },
+        Scenario { name: "r: [OpenFileEx(h,p); ReadFile] || [OpenFileEx(h,q); CloseArchive(h)]".to_string(), mutable: false, setup: vec![OpenArchive(0)], conc: vec![vec![OpenFile(0, P), Read(10, 3)], vec![OpenFile(0, Q), CloseArchive(0)]], probes: vec![Read(10, 2), Read(14, 2), HasFile(0, P)] },
+        Scenario { name: "s: [ReadFile(f); ReadFile(f)] || [SetFilePointer(f); ReadFile(f)]".to_string(), mutable: false, setup: vec![OpenArchive(0), OpenFile(0, P)], conc: vec![vec![Read(1, 2), Read(1, 2)], vec![Seek(1, 1, 0), Read(1, 1)]], probes: vec![Seek(1, 0, 1)] },
+        Scenario { name: "t: [OpenArchive; CloseArchive] || [OpenArchive; OpenFileEx] || CloseArchive(h)".to_string(), mutable: false, setup: vec![OpenArchive(0)], conc: vec![vec![OpenArchive(1), CloseArchive(10)], vec![OpenArchive(1), OpenFile(14, P)], vec![CloseArchive(0)]], probes: vec![Read(15, 3), HasFile(14, Q), HasFile(0, P), CloseArchive(14)] },
+        Scenario { name: "u: [FindFirstFile(h); FindNextFile] || [CloseArchive(h)] || [OpenFileEx(h)]".to_string(), mutable: false, setup: vec![OpenArchive(0)], conc: vec![vec![FindFirst(0), FindNext(10)], vec![CloseArchive(0)], vec![OpenFile(0, P)]], probes: vec![FindNext(10), Read(18, 2), FindClose(10)] },
+        Scenario { name: "q0: placeholder".to_string(), mutable: false, setup: vec![OpenArchive(0)], conc: vec![vec![HasFile(0, P)], vec![HasFile(0, Q)]], probes: vec![] },
+        Scenario { name: "q: Flush(hm) || AddFile(hm)".to_string(), mutable: true, setup: vec![OpenArchive(2)], conc: vec![vec![Flush(0)], vec![AddFile(0, "new\\x.txt")]], probes: vec![HasFile(0, "new\\x.txt"), CloseArchive(0)] },
+    ];
+    // every unordered pair of calls over a shared read-only archive (slot 0), file (slot 1) and search (slot 2)
+    let ro: Vec<Op> = vec![
+        OpenArchive(1), CloseArchive(0), OpenFile(0, P), CloseFile(1), Read(1, 3), Seek(1, 2, 0), Size(1), HasFile(0, P), FindFirst(0), FindNext(2), FindClose(2),
+        Verify(0, 0x10), Verify(0, 0x20), GetInfo(0, 1), GetInfo(1, 7), GetInfo(1, 10), GetName(1), ArchiveName(0), EnumFiles(0), Extract(0, Q), VerifyFile(0, P),
+    ];
+    for i in 0..ro.len() {
+        for j in i..ro.len() {
+            all.push(Scenario {
+                name: format!("pair-ro {:?} || {:?}", ro[i], ro[j]),
+                mutable: false,
+                setup: vec![OpenArchive(0), OpenFile(0, P), FindFirst(0)],
+                conc: vec![vec![ro[i].clone()], vec![ro[j].clone()]],
+                probes: vec![Read(1, 2), Size(1), HasFile(0, Q), FindNext(2), Read(10, 1), Read(14, 1), HasFile(10, P), HasFile(14, P), FindNext(10), FindNext(14)],
+            });
+        }
+    }
+    // ... and over a shared writable archive (slot 0) with an open file (slot 1)
+    let rw: Vec<Op> = vec![AddFile(0, "new\\added.txt"), RemoveFile(0, Q), Rename(0, Q, "dir\\r.bin"), Flush(0), Compact(0), OpenFile(0, Q), HasFile(0, Q), Extract(0, Q), CloseArchive(0), GetInfo(0, 1), EnumFiles(0)];
+    for i in 0..rw.len() {
+        for j in i..rw.len() {
+            all.push(Scenario {
+                name: format!("pair-rw {:?} || {:?}", rw[i], rw[j]),
+                mutable: true,
+                setup: vec![OpenArchive(2), OpenFile(0, P)],
+                conc: vec![vec![rw[i].clone()], vec![rw[j].clone()]],
+                probes: vec![HasFile(0, Q), HasFile(0, "new\\added.txt"), HasFile(0, "dir\\r.bin"), Read(1, 2), Read(10, 1), Read(14, 1)],
+            });
+        }
+    }
+    all
 }
 
 struct Main {
@@ -328,7 +397,7 @@ impl Space for Main {
         r.count("schedules_explored", execs);
         if let Err((file, line, msg)) = res {
             let class = if msg.contains("deadlock") { "deadlock".to_string() } else { panic_class(&file, &msg) };
-            r.viol(format!("{}: {}", s.name.split(':').next().unwrap(), class), format!("{}: {file}:{line}: {msg}", s.name));
+            r.viol(format!("{}: {}", s.name.split(':').next().unwrap().split(" ||").next().unwrap(), class), format!("{}: {file}:{line}: {msg}", s.name));
         }
         if let Some(d) = dup.lock().unwrap().clone() {
             r.viol("the same handle value is issued twice in one execution", format!("{}: {d}", s.name));
